@@ -336,7 +336,7 @@ where
 
 pub fn random(ctx: &mut Ctx) {
     let mut rng = ctx.rng(0xC13);
-    let cases = ctx.by_tier(30, 300);
+    let cases = ctx.by_tier(30, 3000);
     random_kind::<Bdd>(ctx, &mut rng, cases);
     random_kind::<Bcdd>(ctx, &mut rng, cases);
     random_kind::<Zbdd>(ctx, &mut rng, cases);
